@@ -354,16 +354,17 @@ impl Mp4Track {
 
     fn ctts_index(&self, sample_id: u32) -> Result<(usize, u32)> {
         let ctts = self.trak.mdia.minf.stbl.ctts.as_ref().unwrap();
-        let mut sample_count: u32 = 1;
+        // 64 bits: the run lengths of a track with 2^32 - 1 samples sum to 2^32 - 1,
+        // and the count below starts at 1
+        let mut sample_count: u64 = 1;
         for (i, entry) in ctts.entries.iter().enumerate() {
-            let next_sample_count =
-                sample_count
-                    .checked_add(entry.sample_count)
-                    .ok_or(Error::InvalidData(
-                        "attempt to sum ctts entries sample_count with overflow",
-                    ))?;
-            if sample_id < next_sample_count {
-                return Ok((i, sample_count));
+            let next_sample_count = sample_count
+                .checked_add(entry.sample_count as u64)
+                .ok_or(Error::InvalidData(
+                    "attempt to sum ctts entries sample_count with overflow",
+                ))?;
+            if (sample_id as u64) < next_sample_count {
+                return Ok((i, sample_count as u32));
             }
             sample_count = next_sample_count;
         }
@@ -590,18 +591,18 @@ impl Mp4Track {
         } else {
             let stts = &self.trak.mdia.minf.stbl.stts;
 
-            let mut sample_count: u32 = 1;
+            // 64 bits: see ctts_index
+            let mut sample_count: u64 = 1;
             let mut elapsed = 0;
 
             for entry in stts.entries.iter() {
-                let new_sample_count =
-                    sample_count
-                        .checked_add(entry.sample_count)
-                        .ok_or(Error::InvalidData(
-                            "attempt to sum stts entries sample_count with overflow",
-                        ))?;
-                if sample_id < new_sample_count {
-                    let start_time = ((sample_id - sample_count) as u64
+                let new_sample_count = sample_count
+                    .checked_add(entry.sample_count as u64)
+                    .ok_or(Error::InvalidData(
+                        "attempt to sum stts entries sample_count with overflow",
+                    ))?;
+                if (sample_id as u64) < new_sample_count {
+                    let start_time = ((sample_id as u64 - sample_count)
                         * entry.sample_delta as u64)
                         .checked_add(elapsed)
                         .ok_or(Error::InvalidData(
